@@ -20,6 +20,8 @@ pub struct Base {
     pub desc: String,
     /// (offset, len) of each frame
     pub frames: Vec<(usize, usize)>,
+    /// (header length incl. CRC-8, length of the coded frame number) of each frame
+    pub hdr: Vec<(usize, usize)>,
 }
 
 /// Small emitted streams: one per subframe type / width / stereo mode.
@@ -76,6 +78,7 @@ pub fn base_streams(seed: u64, count: usize) -> Vec<Base> {
         v.push(Base {
             audio_offset: rep.audio_offset,
             frames: rep.frames.iter().map(|f| (f.offset, f.len)).collect(),
+            hdr: rep.frames.iter().map(|f| (f.header.header_len, f.header.number_len)).collect(),
             pcm: a.samples.clone(),
             desc: format!("{}ch {}bit block {} {} frames {} bytes {fam} {:?} {:?}", channels, bps, block, rep.frames.len(), bytes.len(), rep.frames.first().map(|f| f.header.assign), kinds),
             bytes,
@@ -278,7 +281,56 @@ pub fn run_c16(ctx: &Ctx) -> i32 {
             let base = rng.pick(&b5);
             let mut data: Vec<u8>;
             let what;
-            match rng.usize_below(5) {
+            match rng.usize_below(7) {
+                5 | 6 => {
+                    // a frame that is valid in every respect (CRC-8 and CRC-16 recomputed) except
+                    // that its coded frame/sample number is replaced by an arbitrary UTF-8-like
+                    // code of 1..=7 bytes (canonical or over-long, up to 36 payload bits) and the
+                    // blocking-strategy bit is sometimes flipped: reaches whatever the parser does
+                    // with the number AFTER its integrity checks passed
+                    data = base.bytes[..base.audio_offset].to_vec();
+                    let nfr = 1 + rng.usize_below(base.frames.len());
+                    for fi in 0..nfr {
+                        let (o, l) = base.frames[fi];
+                        let (hl, nl) = base.hdr[fi];
+                        let mut fr: Vec<u8> = base.bytes[o..o + 4].to_vec();
+                        if rng.chance(1, 2) {
+                            fr[1] ^= 1;
+                        }
+                        if fi + 1 == nfr || rng.chance(1, 3) {
+                            let len = 1 + rng.usize_below(7);
+                            let payload: u64 = match rng.usize_below(5) {
+                                0 => u64::MAX,
+                                1 => 0,
+                                2 => 1u64 << rng.usize_below(37),
+                                3 => (1u64 << rng.usize_below(37)).wrapping_sub(1),
+                                _ => rng.next_u64(),
+                            };
+                            if len == 1 {
+                                fr.push((payload & 0x7F) as u8);
+                            } else {
+                                let lead_bits = 7 - len; // payload bits in the lead byte
+                                let total_bits = lead_bits + 6 * (len - 1);
+                                let v = if total_bits >= 64 { payload } else { payload & ((1u64 << total_bits) - 1) };
+                                let lead_mask: u8 = (0xFFu16 << (8 - len)) as u8;
+                                fr.push(lead_mask | ((v >> (6 * (len - 1))) as u8 & ((1u16 << lead_bits) as u8).wrapping_sub(1)));
+                                for k in (0..len - 1).rev() {
+                                    fr.push(0x80 | ((v >> (6 * k)) as u8 & 0x3F));
+                                }
+                            }
+                        } else {
+                            fr.extend_from_slice(&base.bytes[o + 4..o + 4 + nl]);
+                        }
+                        // optional block-size / sample-rate bytes of the original header
+                        fr.extend_from_slice(&base.bytes[o + 4 + nl..o + hl - 1]);
+                        fr.push(refdec::crc8(&fr));
+                        fr.extend_from_slice(&base.bytes[o + hl..o + l - 2]);
+                        let c16 = refdec::crc16(&fr);
+                        fr.extend_from_slice(&c16.to_be_bytes());
+                        data.extend_from_slice(&fr);
+                    }
+                    what = "valid frames with a re-coded frame number (1..7-byte code, CRCs recomputed)";
+                }
                 0 => {
                     // pure random after a valid marker + STREAMINFO
                     data = base.bytes[..base.audio_offset].to_vec();
